@@ -159,7 +159,7 @@ func openWorld(dir, prefix string) *world {
 	var err error
 	withPoolWorkers(func() { b, err = vbox.Open(dir, "db", opt, []models.ShardID{shardID}) })
 	if err != nil {
-		vevid.Fatal("open engine: %v", err)
+		vevid.OpFailed("open engine: %v", err)
 	}
 	vbox.DupWait = 0 // one-response-per-request is not a clause of this property
 	vbox.QueryTimeout = 5 * time.Second
@@ -193,11 +193,11 @@ func (w *world) housekeeping() {
 	for _, ts := range []int64{w.base, w.base + familyMs} {
 		l0, _, err := w.box.FamilyFiles(shardID, ts)
 		if err != nil {
-			vevid.Fatal("family files: %v", err)
+			vevid.OpFailed("family files: %v", err)
 		}
 		if l0 >= 6 {
 			if _, after, err := w.box.CompactFamily(shardID, ts); err != nil || after > 1 {
-				vevid.Fatal("housekeeping compaction: err=%v level0 after=%d", err, after)
+				vevid.OpFailed("housekeeping compaction: err=%v level0 after=%d", err, after)
 			}
 		}
 	}
